@@ -44,7 +44,7 @@ def load_known(prop):
 def classify_death(prop, rc, stderr_text, plan_text):
     """signature for a run that killed the process"""
     opname = ""
-    m = re.search(r"^syntax (\S+)", plan_text or "", re.M)
+    m = re.search(r"^template (\S+)", plan_text or "", re.M) or re.search(r"^syntax (\S+)", plan_text or "", re.M)
     if m: opname = m.group(1)
     if rc == 78 or "SIM-HANG" in stderr_text:
         return "%s/hang/%s/no-progress" % (prop, opname or "-")
